@@ -407,11 +407,17 @@ func (r *replayer) runPath(pi int, path []edgeJ) {
 	}
 	ti := path[0].From.T - 1
 	t := r.trees[ti]
+	// paths rotate over the backends: MemDB, chain.CacheDB over a MemDB, and (every 8th path)
+	// a real Bolt file, whose content is read from the file when the spec crashes the process
 	backend := "mem"
 	if r.cacheEvery > 0 && pi%r.cacheEvery == 1 {
-		backend = "cache" // durable family: every other path on a chain.CacheDB over the database
+		backend = "cache"
+	}
+	if r.cacheEvery > 0 && pi%8 == 4 {
+		backend = "bolt"
 	}
 	n := NewNodeOn(t.W, backend, true)
+	defer func() { n.DB.Close() }()
 	replay := map[string]any{"kind": "path", "path": path, "backend": backend}
 	notifBase := 0
 	for i := 0; i < len(path); {
@@ -485,8 +491,11 @@ func (r *replayer) runPath(pi int, path []edgeJ) {
 				return
 			}
 			if cls == "crash" {
-				// reopen from the last committed image
-				snap := n.DB.Snaps[len(n.DB.Snaps)-1]
+				// reopen from what survives (must be the last committed image)
+				snap, diff := n.CrashImage()
+				if diff != "" {
+					r.res.Mismatch("replay:crash:uncommitted-visible", "backend "+n.Backend+": "+diff, replay)
+				}
 				nn, err := n.Reopen(snap, true)
 				if err != nil {
 					r.res.Mismatch("replay:crash:reopen", fmt.Sprintf("reopen failed: %v", err), replay)
@@ -527,7 +536,10 @@ func (r *replayer) runPath(pi int, path []edgeJ) {
 			i = j
 		case "Crash":
 			// crash while idle
-			snap := n.DB.Snaps[len(n.DB.Snaps)-1]
+			snap, diff := n.CrashImage()
+			if diff != "" {
+				r.res.Mismatch("replay:crash:uncommitted-visible", "backend "+n.Backend+": "+diff, replay)
+			}
 			nn, err := n.Reopen(snap, true)
 			if err != nil {
 				r.res.Mismatch("replay:crash:reopen", fmt.Sprintf("reopen failed: %v", err), replay)
